@@ -1115,4 +1115,35 @@ theorem tomoValidate_no_index (c : Cls) (pss : List (List (String × Int))) (i :
     · rw [g] at h; injection h with h; exact ⟨i, h.symm⟩
 
 
+
+/-! ## reachable states, tomography circuits -/
+
+
+theorem toSched_inj (ps ps' : List (String × Int)) (h : toSched ps = toSched ps') : ps = ps' := by
+  have := congrArg Schedule.pairs? h
+  rw [pairs?_toSched, pairs?_toSched] at this
+  exact Option.some.inj this
+
+
+
+theorem pyIndex_replicate {α : Type} (n j : Nat) (x : α) (h : j < n) : pyIndex (List.replicate n x) (j : Int) = some x := by
+  simp [pyIndex, h]
+
+theorem pyIndex_single {α : Type} (x : α) : pyIndex [x] (0 : Int) = some x := by simp [pyIndex]
+
+/-- the experiment a tomography object executes: its own lists with the `[None]` placeholder replaced by the true object
+(`generate_prob_dists_sequence`: `tmp_experiment.<attr>[target_index] = true_object`), `sh` = the true object's outcome shape -/
+def substTrue (c : Cls) (nS nP : Nat) (sh : List Nat) : Lists :=
+  match c with
+  | .qst => { tomoLists c.spec nS nP with state := [some []] }
+  | .povmt => { tomoLists c.spec nS nP with povm := [some sh] }
+  | .qpt => { tomoLists c.spec nS nP with gate := [some []] }
+  | .qmpt => { tomoLists c.spec nS nP with mprocess := [some sh] }
+
+/-- outcome shape of one tomography schedule: testers are POVMs with one local outcome count 2 in the model -/
+def tomoShape (c : Cls) (sh : List Nat) : List Nat :=
+  match c with
+  | .qst => [2] | .povmt => [prodNat sh] | .qpt => [2] | .qmpt => sh ++ [2]
+
+
 end QM.C20
